@@ -6,6 +6,10 @@ coefficient index, e.g. 'COEF(self, gj, %d)'.
 """
 
 
+def sum_(terms):
+    return _sum(terms)
+
+
 def _sum(terms):
     return '(' + ' + '.join(terms) + ')' if terms else 'BS_ZERO'
 
@@ -49,3 +53,31 @@ def falling(i, n):
 def binom(n, k):
     from math import comb
     return comb(n, k)
+
+
+def deriv_coef(a, n, size, i):
+    """coefficient i of the n-th derivative of the polynomial with `size` coefficients a"""
+    if i + n >= size:
+        return 'BS_ZERO'
+    return '%d * %s' % (falling(i, n), a % (i + n))
+
+
+def deriv_out(n, size):
+    return max(n, size - 1) - n + 1
+
+
+def pos_coef(a, xm, n, size, K):
+    """coefficient K of (u + xm)^n * p(u), p with `size` coefficients a"""
+    terms = []
+    for i in range(size):
+        j = K - i
+        if 0 <= j <= n:
+            t = '%d' % binom(n, j)
+            if n - j > 0:
+                t += ' * ' + power('(' + xm + ')', n - j)
+            terms.append('%s * %s' % (t, a % i))
+    return _sum(terms)
+
+
+def arglist(a, n):
+    return ', '.join(a % k for k in range(n))
